@@ -570,6 +570,10 @@ impl<'a> Exec<'a> {
     }
 }
 
+pub fn resolve_image_pub(sel: &ImageSel) -> (Image, ImageSel) {
+    resolve_image(sel)
+}
+
 fn resolve_image(sel: &ImageSel) -> (Image, ImageSel) {
     match sel {
         ImageSel::L0 => (Image::L0, ImageSel::L0),
